@@ -40,6 +40,29 @@ for pid in props:
         })
 na = [{"property_id": pid, "reason": M.NOT_APPLICABLE.get(pid, "check not built yet in this session; see DESIGN.md §" + pid)}
       for pid in props if pid not in M.CLAIMED]
+import re
+def _units(mod, seen=None):
+    """GEN_UNITS of a property module including the modules it INCLUDEs (read textually)"""
+    seen = seen or set()
+    fn = os.path.join(HERE, "props", mod + ".py")
+    if mod in seen or not os.path.exists(fn):
+        return set()
+    seen.add(mod)
+    t = open(fn).read()
+    out = set()
+    m = re.search(r"^GEN_UNITS\s*=\s*\[(.*?)\]", t, re.S | re.M)
+    if m:
+        out |= set(re.findall(r"[\"'](Gen\w+)[\"']", m.group(1)))
+    m = re.search(r"^INCLUDE\s*=\s*\[(.*?)\]", t, re.S | re.M)
+    if m:
+        for inc in re.findall(r"[\"'](\w+)[\"']", m.group(1)):
+            out |= _units(inc, seen)
+    return out
+_skel_txt = open(os.path.join(HERE, "pyx2v_skel.py")).read() if os.path.exists(os.path.join(HERE, "pyx2v_skel.py")) else ""
+_m = re.search(r"^UNITS\s*=\s*\[(.*?)\]", _skel_txt, re.S | re.M)
+SKEL_UNITS = set(re.findall(r'"(Gen\w+)"', _m.group(1))) if _m else set()
+SKEL_PROPS = [p for p in sorted(M.CLAIMED) if _units(p.lower()) & SKEL_UNITS]
+PYX_PROPS = [p for p in sorted(M.CLAIMED) if M.CLAIMED[p].get("pyx2v") or (_units(p.lower()) - SKEL_UNITS)]
 man = {
     "version": 1,
     "setup_cmd": "sh tools/setup.sh",
@@ -48,7 +71,8 @@ man = {
               "source_commits": M.SOURCE_COMMITS, "add_only": True},
     "engines": [
         {"name": "coq", "path": "coq/theories", "serves_properties": sorted(M.CLAIMED), "kind_free_text": "Coq 8.16.1 development: models, theorems (Props/*.v), Print Assumptions"},
-        {"name": "pyx2v", "path": "tools/pyx2v.py", "serves_properties": [p for p in sorted(M.CLAIMED) if M.CLAIMED[p].get("pyx2v")], "kind_free_text": "fail-closed Python-ast -> Gallina translator; Gen/*.v regenerated from /repo on every run"},
+        {"name": "pyx2v", "path": "tools/pyx2v.py", "serves_properties": PYX_PROPS, "kind_free_text": "fail-closed Python-ast -> Gallina translator (helpers and class methods); Gen/*.v regenerated from /repo on every run"},
+        {"name": "pyx2v_skel", "path": "tools/pyx2v_skel.py", "serves_properties": SKEL_PROPS, "kind_free_text": "fail-closed Python-ast -> Gallina translator of control-flow skeletons of the algorithm drivers (numeric kernels as Section variables); Gen/GenSolver.v, GenHosvd*.v, GenCpAls*.v, GenTuckerAls.v, GenCpAprMu.v, GenSampler.v, GenGcpOpt.v regenerated from /repo on every run"},
         {"name": "harness", "path": "tools/vcheck.py", "serves_properties": sorted(M.CLAIMED), "kind_free_text": "correspondence: pyttb vs Coq model on generated inputs via generated cases.v + vm_compute"},
     ],
     "checks": checks,
